@@ -196,11 +196,96 @@ def _factory(params, env=None):
     return fn
 
 
-HARNESSES = {"loss": _factory}
+OPS2 = ["write:/a", "write:/b", "delete:/a", "delete:/b", "rename:/a:/b", "rename:/b:/a"]
+
+
+def _two_factory(params, env=None):
+    """two synchronised files: overwrites, deletes and a rename of one file onto the other's (vacated) name"""
+    def fn():
+        e = env or SymEnv()
+        _lab.reset()
+        lab = Lab(params["flavour"])
+        vs = Versions()
+        install_corruption(lab, vs)
+        for n in ("/a", "/b"):
+            v = vs.new("base" + n[1:])
+            lab.user(lambda: lab.p[0].create(lab.roots[0] + n, io.BytesIO(v)))
+            vs.live[v] = "base"
+        if lab.drain() is None:
+            return {"ok": False, "info": {"why": "base tree did not become quiet"}, "sigdata": {"symptom": "base-not-quiet"}}
+        h = History(lab, e)
+        from cloudsync.exceptions import CloudException
+        try:
+            prefix = params.get("prefix") or []
+            for k in range(params["nops"]):
+                if k < len(prefix):
+                    side, op = prefix[k]
+                else:
+                    side = e.choose("side", 2)
+                    op = OPS2[e.choose("op", len(OPS2))]
+                p = lab.p[side]
+                root = lab.roots[side]
+                parts = op.split(":")
+
+                def run():
+                    src = parts[1]
+                    i = p.info_path(root + src)
+                    cur = content_at(lab, side, src)
+                    if parts[0] == "write":
+                        if cur is None:
+                            return ("noop", op)
+                        v = vs.new("w%d" % side)
+                        p.upload(i.oid, io.BytesIO(v))
+                        vs.live.pop(cur, None)
+                        vs.live[v] = op
+                        return ("write", src, v)
+                    if parts[0] == "delete":
+                        if cur is None:
+                            return ("noop", op)
+                        p.delete(i.oid)
+                        vs.live.pop(cur, None)
+                        return ("delete", src)
+                    if parts[0] == "rename":
+                        dst = parts[2]
+                        if cur is None or p.info_path(root + dst):
+                            return ("noop", op)
+                        p.rename(i.oid, root + dst)
+                        return ("rename", src, dst)
+                try:
+                    d = lab.user(run)
+                except CloudException as ex:
+                    d = ("failed", op, type(ex).__name__)
+                h.hist.append((side,) + tuple(d))
+                if d[0] not in ("noop", "failed"):
+                    h.real_ops += 1
+                for j in range(params["slots"]):
+                    s_ = e.choose("round", 2)
+                    h.hist.append("r%d" % s_)
+                    if s_:
+                        for o in (0, 1, 2):
+                            h.step(o)
+            try:
+                h.drain()
+            except Fail:
+                pass
+            tl, tr = lab.tree(0), lab.tree(1)
+            present = set(v for v in list(tl.values()) + list(tr.values()) if v is not None)
+            lost = sorted(v.decode() for v in vs.live if v not in present)
+            if lost:
+                raise Fail("content a user wrote and nobody deleted or overwrote no longer exists on either side", lost=lost, local=show(tl), remote=show(tr), symptom="version-lost")
+        except Fail as f:
+            return result_fail(h, f, params)
+        finally:
+            lab.stop_engine()
+        return {"ok": True, "key": repr(h.hist), "nontrivial": h.real_ops > 0}
+    return fn
+
+
+HARNESSES = {"loss": _factory, "two": _two_factory}
 
 
 def replay(harness, params, model):
-    return std_replay(_factory, harness, params, model)
+    return std_replay(HARNESSES[harness], harness, params, model)
 
 
 def signature(harness, params, rec):
@@ -227,6 +312,11 @@ def jobs(tier):
             for op in OPS:
                 out.append({"harness": "loss", "params": {"flavour": f, "base": b, "nops": n, "slots": sl, "first": [side, op]},
                             "label": "%s/base%d/%dops/%dslots/first=%d:%s" % (f, b, n, sl, side, op)})
+    for f in (("oid", "path") if q else ("oid", "path", "mixed")):
+        for side in (0, 1):
+            for op in OPS2:
+                out.append({"harness": "two", "params": {"flavour": f, "nops": 3, "slots": 1 if q else 1, "prefix": [[side, op]]},
+                            "label": "two-files/%s/3ops/first=%d:%s" % (f, side, op)})
     return out
 
 
@@ -238,7 +328,8 @@ def meta(tier):
                        "siblings count). Corrupt read: downloads of the unreadable bytes raise CloudCorruptError; the garbage must never appear on the other side and the good copy's "
                        "content must survive.",
         "bounds": {"operations": OPS, "length": "2 with 1 slot; 3 without slots (thorough: 2 with 2 slots, 3 with 1 slot)", "bases": "empty; /a synchronised", "flavours": "oid, path (thorough + mixed, case-insensitive)",
-                   "corrupt": "at most one copy becomes unreadable per history"},
+                   "corrupt": "at most one copy becomes unreadable per history",
+                   "two-file family": "3 operations from %s on two synchronised files, after each nothing or one fair round of engine steps" % OPS2},
         "symbolic": ["side and operation of every step", "schedule slots"],
         "outside": ["more than one shared name", "custom resolvers (C05)", "longer histories"],
         "stubs": ["engine lab determinisation", "download wrapper raising CloudCorruptError for the unreadable bytes"],
